@@ -186,14 +186,36 @@ def ser_tx(version, ins, outs, locktime):
 
 
 def tx_bytes(tx):
-    """tx = [version, [[hash, n, [ops], seq]...], [[value, script]...], locktime]"""
-    v, ins, outs, lt = tx
-    return ser_tx(v, [(h, n, b"".join(op_bytes(o) for o in ops), q) for (h, n, ops, q) in ins],
-                  outs, lt)
+    """tx = [version, [[hash, n, [ops], seq]...], [[value, script]...], locktime] or, in the
+    BIP144 serialization, with a fifth item: one witness stack (list of byte strings) per input."""
+    v, ins, outs, lt = tx[:4]
+    sins = [(h, n, b"".join(op_bytes(o) for o in ops), q) for (h, n, ops, q) in ins]
+    if len(tx) > 4 and tx[4] is not None:
+        return ser_tx_witness(v, sins, outs, lt, tx[4])
+    return ser_tx(v, sins, outs, lt)
+
+
+def ser_tx_witness(version, ins, outs, locktime, stacks):
+    """BIP144: version, marker 00, flag 01, inputs, outputs, witness stacks, lock time."""
+    body = ser_tx(version, ins, outs, locktime)
+    n = len(struct.pack("<i", version))
+    wit = b""
+    for st in stacks:
+        wit += varint(len(st)) + b"".join(varint(len(i)) + bytes(i) for i in st)
+    return body[:n] + b"\x00\x01" + body[n:-4] + wit + body[-4:]
 
 
 def parse_tx(raw):
-    """Independent parser of a serialized (non-witness) transaction; raises ValueError."""
+    """Independent parser of a classic (non-witness) serialized transaction."""
+    v, ins, outs, lt, wit = parse_tx_any(raw)
+    if wit is not None:
+        raise ValueError("witness serialization")
+    return v, ins, outs, lt
+
+
+def parse_tx_any(raw):
+    """Independent parser of a serialized transaction, classic or BIP144; raises ValueError.
+    -> (version, ins, outs, locktime, witness stacks or None)"""
     pos = 0
 
     def take(n):
@@ -214,6 +236,9 @@ def parse_tx(raw):
             return struct.unpack("<I", take(4))[0]
         return struct.unpack("<Q", take(8))[0]
     version = struct.unpack("<i", take(4))[0]
+    segwit = raw[4:6] == b"\x00\x01"
+    if segwit:
+        take(2)
     ins = []
     for _ in range(vi()):
         h = take(32)
@@ -226,10 +251,13 @@ def parse_tx(raw):
         v = struct.unpack("<q", take(8))[0]
         s = take(vi())
         outs.append((v, s))
+    wit = None
+    if segwit:
+        wit = [[take(vi()) for _ in range(vi())] for _ in ins]
     lt = struct.unpack("<I", take(4))[0]
     if pos != len(raw):
         raise ValueError("trailing data")
-    return version, ins, outs, lt
+    return version, ins, outs, lt, wit
 
 
 # ------------------------------------------------------------------ BIP32
